@@ -53,7 +53,78 @@ def units(tier):
     out += [(None, "generic_specialisations"), (None, "same_name_classes"), (None, "init_false_field"), (None, "fixed_unpacked_tuple")]
     out += [(None, "constraints", t) for t in CONSTRAINT_TARGETS]
     out += [(None, "forward_refs")]
+    out += [(None, "literal_mixed", i) for i in range(len(LIT_ALPHABET))]
     return out
+
+
+def _lit_alphabet():
+    from vmc import tmod
+    return [True, False, 0, 1, 2, "1", "a", None, b"x", tmod.ES.A, tmod.EI.ONE, tmod.IE.X]
+
+
+LIT_ALPHABET = list(range(12))      # indices into _lit_alphabet()
+
+
+def run_literal_mixed(unit, res):
+    """Literal types mixing value kinds that compare equal in Python but are distinct on the wire (True / 1 / IntEnum 1 /
+    Enum with value 1, False / 0, '1'): every ordered pair and triple starting with the unit's first value, as a bare
+    shape, a dataclass field and a list element. Every listed value's own serialization must validate."""
+    import itertools
+    import typing
+    from jsonschema import Draft202012Validator
+    from mashumaro.codecs.basic import BasicEncoder
+    from mashumaro.jsonschema import DRAFT_2020_12, OPEN_API_3_1, build_json_schema
+    alpha = _lit_alphabet()
+    first = unit[2]
+    rest = [i for i in range(len(alpha)) if i != first]
+    combos = [(first, j) for j in rest] + [(first, j, k) for j, k in itertools.permutations(rest, 2)]
+    for combo in combos:
+        vals = [alpha[i] for i in combo]
+        lit = typing.Literal[tuple(vals)]
+        with space.Ctx() as ctx:
+            ctx.ns["LIT"] = lit
+            ctx.run("@dataclass\nclass H:\n    x: LIT\n    xs: List[LIT]\n")
+            H = ctx.ns["H"]
+            for target, typ, mk in (("bare", lit, lambda v: v), ("field", H, lambda v: H(v, [v, v]))):
+                key0 = f"{combo}/{target}"
+                try:
+                    enc = BasicEncoder(typ)
+                except Exception as e:   # noqa: BLE001
+                    res.outcomes["encoder-build-raised"] += 1     # not this property's subject
+                    continue
+                for dialect, dname in ((DRAFT_2020_12, "DRAFT_2020_12"), (OPEN_API_3_1, "OPEN_API_3_1")):
+                    key = f"{key0}/{dname}"
+                    res.transitions += 1
+                    try:
+                        sch = build_json_schema(typ, dialect=dialect).to_dict()
+                        val = Draft202012Validator(doc_for(sch, dname))
+                    except Exception as e:   # noqa: BLE001
+                        res.cases += 1
+                        res.violation(f"schema-build-raised|literal_mixed|{key}", "schema-build-raised", type(e).__name__,
+                                      dict(desc=None, target="literal_mixed", key=key, value_index=-1, first=first,
+                                           facts=dict(scenario="literal_mixed")), f"Literal{vals!r} {e!r:.200}")
+                        continue
+                    for vi, v in enumerate(vals):
+                        res.cases += 1
+                        try:
+                            wire = enc.encode(mk(v))
+                        except Exception:   # noqa: BLE001
+                            res.outcomes["encode-raised"] += 1
+                            continue
+                        errs = list(val.iter_errors(wire))
+                        if errs:
+                            res.outcomes["rejected"] += 1
+                            res.violation(f"schema-rejects|literal_mixed|{key}|{vi}", "schema-rejects-output", "rejected",
+                                          dict(desc=None, target="literal_mixed", key=key, value_index=-1, first=first,
+                                               facts=dict(scenario="literal_mixed")),
+                                          f"Literal{vals!r} value={v!r} wire={wire!r} error={errs[0].message[:150]} schema={json.dumps(sch)[:300]}")
+                        else:
+                            res.outcomes["valid"] += 1
+                            if any(type(o) is not type(v) and o == (v.value if hasattr(v, 'value') else v) for o in vals):
+                                res.nontrivial += 1
+    res.sample(dict(scenario="literal_mixed", first=repr(alpha[first]), literals=len(combos)))
+    res.states += len(combos)
+    return res
 
 
 def doc_for(schema_dict, dialect_name):
@@ -427,6 +498,8 @@ def run_constraints(unit, res):
 def run_special(unit, res):
     if unit[1] == "constraints":
         return run_constraints(unit, res)
+    if unit[1] == "literal_mixed":
+        return run_literal_mixed(unit, res)
     """Distinct classes / generic specialisations must not share one definition."""
     if unit[1] in ("init_false_field", "fixed_unpacked_tuple", "forward_refs"):
         return run_shape_special(unit, res)
@@ -481,6 +554,8 @@ def run_special(unit, res):
 def replay(case):
     if case["desc"] is None and str(case["target"]).startswith("constraints:"):
         return [v for v in run_unit((None, "constraints", case["target"].split(":", 1)[1])).violations if v["case"]["key"] == case["key"]]
+    if case["desc"] is None and case["target"] == "literal_mixed":
+        return [v for v in run_unit((None, "literal_mixed", case["first"])).violations if v["case"]["key"] == case["key"]]
     if case["desc"] is None:
         return [v for v in run_unit((None, case["target"])).violations if v["case"]["key"] == case["key"]]
     d = core.detuple(case["desc"])
